@@ -55,9 +55,23 @@ func (fr *frame) call(cc *ssa.CallCommon, st *State, reach *string, instr ssa.In
 		} else if f := cc.StaticCallee(); f != nil {
 			name = f.Name()
 		}
-		for _, cl := range fr.c.Before[name] {
-			g := fr.evalClause(cl, instr.Block(), st, nil)
-			ex.oblige(fr.label("before."+name+"."+cl.Label), "assert", cl.Props, imp(*reach, g), cl.Pos, cl.Text)
+		for key, cls := range fr.c.Before {
+			// "before SendProbe" and "before TracerouteDriver.SendProbe" both name the method SendProbe
+			short := key
+			if i := strings.LastIndex(key, "."); i >= 0 {
+				short = key[i+1:]
+			}
+			if name == "" || (key != name && short != name) {
+				continue
+			}
+			if ex.beforeHit == nil {
+				ex.beforeHit = map[string]bool{}
+			}
+			ex.beforeHit[key] = true
+			for _, cl := range cls {
+				g := fr.evalClause(cl, instr.Block(), st, nil)
+				ex.oblige(fr.label("before."+name+"."+cl.Label), "assert", cl.Props, imp(*reach, g), cl.Pos, cl.Text)
+			}
 		}
 	}
 	args := make([]Val, 0, len(cc.Args)+1)
@@ -482,6 +496,18 @@ func (ex *Exec) callContractVars(c *Contract, params []*types.Var, sig *types.Si
 			env[n] = v
 		}
 	}
+	if ex.pure == 0 {
+		// history counters the callee's postconditions speak about (goroutines it started, calls it made) are advanced
+		// by the callee: they are forgotten (monotonically) before its postconditions are assumed. Without this a
+		// postcondition "nspawned(F$1) == old(nspawned(F$1)) + n" would contradict the caller's unchanged counter.
+		for _, k := range historyCounterKeys(c) {
+			ex.registerKey(k, sInt)
+			prev := ex.heapGet(st, k, sInt)
+			nv := ex.freshConst("hist", sInt)
+			ex.assume(app("<=", prev, nv))
+			ex.setH(st, k, ite(r, nv, prev))
+		}
+	}
 	for _, cl := range c.Ensures {
 		g := ex.evalCallClause(c, cl, env, st, old)
 		ex.assume(imp(r, g))
@@ -509,6 +535,38 @@ func (ex *Exec) callContractVars(c *Contract, params []*types.Var, sig *types.Si
 		return Val{T: res}
 	}
 	return tupleVal(res, vs)
+}
+
+// historyCounterKeys lists the ghost keys of the history counters (nspawned, ncalls) named in c's postconditions.
+func historyCounterKeys(c *Contract) []string {
+	seen := map[string]bool{}
+	var out []string
+	for _, cl := range c.Ensures {
+		ast.Inspect(cl.Expr, func(n ast.Node) bool {
+			call, ok := n.(*ast.CallExpr)
+			if !ok || len(call.Args) < 1 {
+				return true
+			}
+			id, ok := call.Fun.(*ast.Ident)
+			if !ok {
+				return true
+			}
+			k := ""
+			switch id.Name {
+			case "nspawned":
+				k = "X|nspawn." + fnNameArg(call.Args[0])
+			case "ncalls":
+				k = "X|ncalls." + fnNameArg(call.Args[0])
+			}
+			if k != "" && !seen[k] {
+				seen[k] = true
+				out = append(out, k)
+			}
+			return true
+		})
+	}
+	sortStrings(out)
+	return out
 }
 
 // applyModifies havocs the locations a callee may write.
